@@ -8,10 +8,14 @@ import (
 )
 
 var prop = flag.String("prop", "C18", "C17|C18|C19")
+var report = flag.String("report", "", "property id to report under (default: -prop)")
 
 func main() {
 	flag.Parse()
-	vx.Main(&vx.Harness{Property: *prop, Name: "appw-" + strings.ToLower(*prop), Scenarios: func(tier string) []vx.Scenario {
+	if *report == "" {
+		*report = *prop
+	}
+	vx.Main(&vx.Harness{Property: *report, Name: "appw-" + strings.ToLower(*prop), Scenarios: func(tier string) []vx.Scenario {
 		th := tier == "thorough"
 		switch *prop {
 		case "C18":
